@@ -459,6 +459,24 @@ fn select_n_nodes(
         dc_count -= 1;
     }
 
+    // Depending on where the cursors were left by earlier selections, the pass above can
+    // come up short although enough nodes exist. Top up from the remaining nodes before
+    // giving up.
+    if selected_nodes.len() < n {
+        let remaining = data_centers
+            .values()
+            .flat_map(|dc_nodes| dc_nodes.get_nodes().iter().copied());
+        for node in remaining {
+            if selected_nodes.len() >= n {
+                break;
+            }
+
+            if node != local_node && !selected_nodes.contains(&node) {
+                selected_nodes.push(node);
+            }
+        }
+    }
+
     if selected_nodes.len() >= n {
         debug!(selected_node = ?selected_nodes, "Nodes have been selected for the given parameters.");
         Ok(selected_nodes)
